@@ -917,7 +917,11 @@ def relabel_cases(ck, env: Env, rng, stats, n_random: int, only_aps=None):
         Attributes = dataclasses.make_dataclass("Attributes", [], bases=(env.F.BaseAttributes,))
         return type(name, (env.N.Node,), {
             "op_type": env.N.OpType(name, "my.relabel", 2), "Attributes": Attributes, "Inputs": Inputs,
-            "Outputs": Outputs, "infer_output_types": lambda self: {"y": ts.Tensor(np.float32, ())},
+            # elementwise stand-ins for Neg/Add/Sum: the output has the type of the first input,
+            # whatever types C04's realiser works with
+            "Outputs": Outputs, "infer_output_types": lambda self: (
+                {"y": next(iter(self.inputs.get_vars().values())).type}
+                if self.inputs.get_vars() and next(iter(self.inputs.get_vars().values())).type is not None else {}),
         })
 
     CNeg = mk_cls("CNeg", [("a", Var)])
@@ -955,8 +959,24 @@ def relabel_cases(ck, env: Env, rng, stats, n_random: int, only_aps=None):
             aps.append(R0.ap)
         except Exception:  # noqa: BLE001 - not realisable: not a program
             continue
-    real_spox = L._spox
+    # the one place where C04's realiser is hooked: its `_spox()` hands out the constructor namespace
+    real_spox = getattr(L, "_spox", None)
+    try:
+        probe = real_spox()
+        api_ok = callable(real_spox) and isinstance(probe, tuple) and len(probe) == 4 and all(
+            callable(getattr(probe[1], k, None)) for k in ("neg", "add", "sum")) and callable(getattr(L, "realise_lowlevel", None))
+    except Exception:  # noqa: BLE001
+        api_ok = False
+    if not api_ok:
+        ck.broken("correspondence", "C04 generator API changed (compose facet): lib_buildalg._spox()/realise_lowlevel "
+                  "no longer offer the constructor namespace the relabelling hooks into", "relabel tie skipped; no verdict")
+        return
+
+    def out_types(R):
+        return [[getattr(v, "type", None) for v in nd.outputs.get_vars().values()] for nd in R.nodes]
+
     n_cmp = n_custom = 0
+    unfaithful = 0
     try:
         for ap in aps:
             if not isinstance(ap, dict) or "nodes" not in ap:
@@ -964,7 +984,9 @@ def relabel_cases(ck, env: Env, rng, stats, n_random: int, only_aps=None):
             try:
                 with warnings.catch_warnings():
                     warnings.simplefilter("ignore")
-                    std = _observe_all(L, L.realise_lowlevel(ap), ap)
+                    Rs = L.realise_lowlevel(ap)
+                    std_types = out_types(Rs)
+                    std = _observe_all(L, Rs, ap)
                     pseed = rng.randrange(1 << 30)
                     prng = __import__("random").Random(pseed)
                     sp, op_real, gr, AG = real_spox()
@@ -975,6 +997,15 @@ def relabel_cases(ck, env: Env, rng, stats, n_random: int, only_aps=None):
                         L._spox = real_spox
                     k = sum(1 for nd in Rc.nodes if type(nd) in (CNeg, CAdd, CSum))
                     if k == 0:
+                        continue
+                    if out_types(Rc) != std_types:
+                        # the stand-ins do not reproduce the standard operators' types for this
+                        # program: the realisation is not faithful, nothing can be concluded from it
+                        unfaithful += 1
+                        if unfaithful <= 2:
+                            ck.broken("correspondence", "C04 generator API changed (compose facet): the custom stand-ins for "
+                                      "Neg/Add/Sum no longer reproduce the standard operators' output types",
+                                      json.dumps(L.ap_for_model(ap))[:400])
                         continue
                     cus = _observe_all(L, Rc, ap)
             except Exception as e:  # noqa: BLE001
@@ -997,6 +1028,10 @@ def relabel_cases(ck, env: Env, rng, stats, n_random: int, only_aps=None):
             ck.count(("relabel", json.dumps(L.ap_for_model(ap), sort_keys=True)))
     finally:
         L._spox = real_spox
+    if n_cmp == 0 and only_aps is None and len(aps) >= 5:
+        ck.broken("correspondence", "C04 generator API changed (compose facet): none of the generated programs could be "
+                  "realised with custom stand-ins", f"{len(aps)} programs, {stats.get('relabel_unrealisable', 0)} unrealisable")
+    stats["relabel_unfaithful"] = unfaithful
     stats["relabel_programs"] = n_cmp
     stats["relabel_custom_nodes"] = n_custom
 
